@@ -17,13 +17,12 @@ C16).
 """
 import collections
 import itertools
-import os
 import warnings
 
 import numpy as np
 
 from omv.props.c15_interp_values import (LATTICE, GENERAL, FIXED, all_grids, family, method_info,
-                                         make_table, pal_seq, poly_eval, vander, _Raised)
+                                         make_table, pal_seq, vander, _Raised)
 
 ID = 'C16'
 LEVEL = 'exploration'
@@ -32,7 +31,7 @@ TECHNIQUE = ('bounded exhaustive enumeration of grids x methods x query points; 
              'values, and the unit-table basis (complete for a linear map)')
 RULE = ('grids: every strictly increasing subset of the lattice {-3,-2,-0.5,0,0.75,2,3.5} of the sizes '
         'a method accepts in 1-D, pairs/triples of a per-size-and-sign-class family in 2-D/3-D; methods:'
-        ' all 19 table methods for d/dx, the 8 general methods for d/dvalues, bsplines with num_cp '
+        ' all 18 table methods for d/dx, the 8 general methods for d/dvalues, bsplines with num_cp '
         '4..7 x order 2..4; query points at cell fractions 1/8, 1/2, 13/16 of every cell, one lattice '
         'step outside each end, and (polynomial tables) the nodes; one evaluation = one gradient entry'
         ' or one coefficient vector compared; non-trivial = reference derivative / coefficient vector '
